@@ -246,6 +246,8 @@ class Folder(object):
             raise Unfoldable("star call")
         args = [ev(a) for a in e.args]
         kwargs = {k.arg: ev(k.value) for k in e.keywords}
+        if isinstance(f, ast.Name) and f.id not in env and f.id not in mod.assigns and f.id in mod.funcs:
+            return self._apply(mod.funcs[f.id], mod, args, kwargs)
         if isinstance(f, ast.Name) and f.id not in env and f.id not in mod.assigns and f.id not in mod.imports:
             name = f.id
             try:
@@ -340,6 +342,123 @@ class Folder(object):
             except Exception as x:   # noqa
                 raise Unfoldable(str(x))
         raise Unfoldable("call")
+
+
+class _Return(Exception):
+    def __init__(self, value):
+        self.value = value
+
+
+class _Break(Exception):
+    pass
+
+
+class _Continue(Exception):
+    pass
+
+
+def _apply(self, fn, mod, args, kwargs):
+    """A module-level helper applied to folded constants (`_id_to_wire(b'CNXN')` in a constant table): its body is folded
+    statement by statement when it is a pure computation over its own locals - assignments to plain names, `for` over a
+    folded sequence, `while`/`if` on folded tests, `return`; anything else (attribute or subscript stores, global state,
+    calls the folder does not know, nested definitions) is TOP.  The number of statements folded is bounded."""
+    node = fn.node
+    if isinstance(node, ast.AsyncFunctionDef) or node.decorator_list or fn.is_generator:
+        raise Unfoldable("call %s" % node.name)
+    a = node.args
+    if a.vararg or a.kwarg or a.posonlyargs or a.kwonlyargs:
+        raise Unfoldable("call %s" % node.name)
+    names = [x.arg for x in a.args]
+    if len(args) > len(names) or any(k not in names for k in kwargs):
+        raise Unfoldable("call %s: arguments" % node.name)
+    env = dict(zip(names, args))
+    for k, v in kwargs.items():
+        if k in env:
+            raise Unfoldable("call %s: arguments" % node.name)
+        env[k] = v
+    defaults = dict(zip(names[len(names) - len(a.defaults):], a.defaults))
+    for n in names:
+        if n not in env:
+            if n not in defaults:
+                raise Unfoldable("call %s: arguments" % node.name)
+            env[n] = self.eval(defaults[n], mod, {})
+    key = ("apply", mod.name, node.name)
+    if key in self._busy:
+        raise Unfoldable("recursive helper %s" % node.name)
+    self._busy.add(key)
+    budget = [20000]
+
+    def block(stmts):
+        for st in stmts:
+            budget[0] -= 1
+            if budget[0] < 0:
+                raise Unfoldable("call %s: too long" % node.name)
+            if isinstance(st, ast.Expr) and isinstance(st.value, ast.Constant):
+                continue
+            if isinstance(st, ast.Pass):
+                continue
+            if isinstance(st, ast.Assign) and all(isinstance(t, (ast.Name, ast.Tuple, ast.List)) for t in st.targets):
+                v = self.eval(st.value, mod, env)
+                for t in st.targets:
+                    self._bind(t, v, env)
+            elif isinstance(st, ast.AugAssign) and isinstance(st.target, ast.Name):
+                env[st.target.id] = self.eval(ast.BinOp(left=ast.Name(id=st.target.id, ctx=ast.Load()), op=st.op, right=st.value), mod, env)
+            elif isinstance(st, ast.Return):
+                raise _Return(None if st.value is None else self.eval(st.value, mod, env))
+            elif isinstance(st, ast.If):
+                block(st.body if self.eval(st.test, mod, env) else st.orelse)
+            elif isinstance(st, ast.For):
+                it = self.eval(st.iter, mod, env)
+                if isinstance(it, _FrozenDict):
+                    it = tuple(it.keys())
+                if not isinstance(it, (tuple, bytes, str)):
+                    raise Unfoldable("iteration over %s" % type(it).__name__)
+                broke = False
+                for item in it:
+                    self._bind(st.target, item, env)
+                    try:
+                        block(st.body)
+                    except _Break:
+                        broke = True
+                        break
+                    except _Continue:
+                        continue
+                if not broke:
+                    block(st.orelse)
+            elif isinstance(st, ast.While):
+                broke = False
+                while self.eval(st.test, mod, env):
+                    budget[0] -= 1
+                    if budget[0] < 0:
+                        raise Unfoldable("call %s: too long" % node.name)
+                    try:
+                        block(st.body)
+                    except _Break:
+                        broke = True
+                        break
+                    except _Continue:
+                        continue
+                if not broke:
+                    block(st.orelse)
+            elif isinstance(st, ast.Break):
+                raise _Break()
+            elif isinstance(st, ast.Continue):
+                raise _Continue()
+            else:
+                raise Unfoldable("call %s: %s" % (node.name, type(st).__name__))
+    try:
+        try:
+            block(node.body)
+        except _Return as r:
+            return r.value
+        except (_Break, _Continue):
+            raise Unfoldable("call %s" % node.name)
+        return None
+    finally:
+        self._busy.discard(key)
+
+
+Folder._apply = _apply
 
 
 class _FrozenDict(dict):
